@@ -164,7 +164,8 @@ class Vertex(base.BaseObject):
         if args in self.__qa_nb_cache:
             stats[0] += 1
 
-            return self.__qa_nb_cache[args]
+            # hand out a copy: callers are free to modify what they get
+            return list(self.__qa_nb_cache[args])
 
         stats[1] += 1
         return self._QA_NB_INVALID
@@ -203,7 +204,8 @@ class Vertex(base.BaseObject):
         if not self.NEIGHBOR_CACHING:
             return
         self._CACHE_STATS.setdefault(self.uid, [0, 0, 0, 0])[3] += 1
-        self.__qa_nb_cache[args] = answer
+        # keep our own copy: the caller still holds (and may modify) `answer`
+        self.__qa_nb_cache[args] = list(answer)
 
     def add_to_link(self, link: Link):
         """
